@@ -211,7 +211,7 @@ impl<W: WorldSpec> Engine<W> {
             self.cur = *w;
         } else {
             let caps: Vec<usize> = vec![0; W::archs().len()];
-            match catch(|| W::with_caps(&caps)) {
+            match catch(|| W::fresh_default()) {
                 Ok(w) => {
                     self.ws.push(Some(w));
                     self.ms.push(Model::new(&caps));
